@@ -46,6 +46,7 @@ Definition utxo_cols (u : utxo_row) (c : col) : sval :=
   | C_u_no_wallet_inputs => bv (u_no_wallet_inputs u)
   | C_rn_lock_expiry => ov (u_lock u)
   | C_rn_lock_owner => ov (u_owner u)
+  | C_account_uuid => VInt (u_acct u)
   | _ => VNull
   end.
 
@@ -86,6 +87,83 @@ Definition select_utxos (udb : list utxo_row) (target : Z) (addrs : list Z) (pol
   | [] => []
   | _ => filter (utxo_passes (UQ target (minconf pol zero_conf) f addrs (overridable lf)) lf) udb
   end.
+
+(** ** select_spendable_transparent_outputs (the transparent gather of propose_transaction) *)
+
+Record gparams := GQ {
+  gq_acct : Z; gq_allow : option (list Z);   (* TransparentSource: None = any address of the account *)
+  gq_target : Z; gq_minconf : Z; gq_filter : cbfilter; gq_owners : list Z
+}.
+
+Definition gq_pv (q : gparams) (p : param) : sval :=
+  match p with
+  | P_account_uuid => VInt (gq_acct q)
+  | P_has_allow_list => bv (match gq_allow q with Some _ => true | None => false end)
+  | P_min_value => VInt MARGINAL_FEE
+  | P_target_height => VInt (gq_target q)
+  | P_min_confirmations => VInt (gq_minconf q)
+  | P_coinbase_filter => VInt (cbfilter_code (gq_filter q))
+  | _ => VNull
+  end.
+
+Definition gq_lv (q : gparams) (l : lparam) : list Z :=
+  match l with
+  | L_addresses => match gq_allow q with Some a => a | None => [] end
+  | L_overridable_owners => gq_owners q
+  | L_exclude => []
+  end.
+
+Definition utxo_gather_where (lf : lockfilter) : expr :=
+  match lf with LFUnfiltered => utxo_gather_where_unfiltered | LFPolicy _ => utxo_gather_where_policy end.
+
+Definition utxo_gather_passes (q : gparams) (lf : lockfilter) (u : utxo_row) : bool :=
+  truthy (eval (utxo_cols u) (gq_pv q) (gq_lv q) (utxo_spent (gq_target q) u) (utxo_gather_where lf)).
+
+(** ORDER BY [lock tier,] value DESC (ties by output index are outside the model: Wf demands
+    distinct values) *)
+Definition u_tier (target : Z) (u : utxo_row) : Z :=
+  if truthy (eval (utxo_cols u) (fun p => match p with P_target_height => VInt target | _ => VNull end)
+                  (fun _ => []) false locked_tier_cond) then 1 else 0.
+
+Definition u_tier_key (lf : lockfilter) (target : Z) (u : utxo_row) : Z :=
+  match lf with
+  | LFPolicy (LPreferUnlocked _) => u_tier target u
+  | LFPolicy (LPreferLocked _) => 1 - u_tier target u
+  | _ => 0
+  end.
+
+Definition gather_leb (lf : lockfilter) (target : Z) (a b : utxo_row) : bool :=
+  let ta := u_tier_key lf target a in let tb := u_tier_key lf target b in
+  (ta <? tb) || ((ta =? tb) && (u_value b <=? u_value a)).
+
+Fixpoint insert_g (le : utxo_row -> utxo_row -> bool) (x : utxo_row) (l : list utxo_row) : list utxo_row :=
+  match l with
+  | [] => [x]
+  | y :: t => if le x y then x :: l else y :: insert_g le x t
+  end.
+Definition sort_g (le : utxo_row -> utxo_row -> bool) (l : list utxo_row) : list utxo_row := fold_right (insert_g le) [] l.
+
+(** ZIP 317 fee of [n] P2PKH inputs alone: marginal fee times max(grace actions = 2, n). *)
+Definition gather_fee (n : Z) : Z := MARGINAL_FEE * Z.max 2 n.
+
+(** the Rust-side accumulation: stop at the input cap, or once value - fee reaches the target *)
+Fixpoint accumulate_utxos (target : option Z) (cap : nat) (n acc : Z) (l : list utxo_row) : list utxo_row :=
+  match l with
+  | [] => []
+  | u :: t =>
+      match cap with
+      | O => []
+      | S cap' =>
+          if match target with Some tv => tv <=? Z.max 0 (acc - gather_fee n) | None => false end then []
+          else u :: accumulate_utxos target cap' (n + 1) (acc + u_value u) t
+      end
+  end.
+
+Definition select_transparent (udb : list utxo_row) (acct : Z) (allow : option (list Z)) (target_height : Z)
+    (pol : policy) (zero_conf : bool) (f : cbfilter) (target : option Z) (lf : lockfilter) : list utxo_row :=
+  let q := GQ acct allow target_height (minconf pol zero_conf) f (overridable lf) in
+  accumulate_utxos target (Z.to_nat SHIELDING_MAX_INPUTS) 0 0
+    (sort_g (gather_leb lf target_height) (filter (utxo_gather_passes q lf) udb)).
 
 (** ** gather_shielding_inputs: highest value first (outpoint order breaks ties), capped *)
 Definition utxo_leb (a b : utxo_row) : bool :=
